@@ -153,7 +153,7 @@ def main():
         kf = next((k for k in known if k["key"] == key), None)
         if kf: known_hit.append((kf, v))
         else: new_viol.append(v)
-    rdir = os.path.join(ROOT, "replays", pid); shutil.rmtree(rdir, ignore_errors=True); os.makedirs(rdir, exist_ok=True)
+    rdir = os.path.join(ROOT, "replays", pid) if not args.match else os.path.join(ROOT, "build", "out", "replay_tmp", pid); shutil.rmtree(rdir, ignore_errors=True); os.makedirs(rdir, exist_ok=True)
     for kf, v in known_hit:
         print("KNOWN-FINDING: property=%s %s [%s] (%d cases, e.g. %s)" % (pid, kf.get("what", v["what"]), kf["key"], v["count"], v["case"][:200]))
     for n, v in enumerate(new_viol):
